@@ -327,7 +327,7 @@ pub fn run(tier: Tier) -> i32 {
     let model_err: u64 = st.counters.iter().filter(|(k, _)| k.starts_with("MODEL_ERROR")).map(|(_, v)| *v).sum();
     rep.guard("every generated call parses in the reference", model_err == 0);
     rep.guard("all outcome classes occur", ["invalid-arity", "invalid-type", "unknown function", "value"].iter().all(|k| st.outcomes.get(*k).cloned().unwrap_or(0) > 10));
-    rep.rule = "the full decision table: 26 builtins + 2 unknown names x every argument count 0..declared+2 (variadic to 4) x every combination of the 10 argument type classes per position (as literals / &expr), plus by-functions x every key type vector up to the bound. Oracle: R-fn signature table (arity before types, unknown name after argument evaluation, declared result type). states = table cells; non-trivial = the call is well-typed and returns a value".into();
+    rep.rule = "the full decision table: 26 builtins + 2 unknown names x every argument count 0..declared+2 (variadic to 4) x every combination of the 10 argument type classes per position (as literals / &expr), plus by-functions x every key type vector up to the bound. Oracle: R-fn signature table (arity before types, unknown name after argument evaluation, declared result type). states = table cells; non-trivial = the call is well-typed and returns a value The same table with arguments taken from the document (10 fields, every tuple up to 3 positions, so a repeated field hands the same node to two parameters) and with the current node in every position; the same calls as hand-built expressions (Expression::new with an empty / short / non-ASCII label) must behave as through compile().".into();
     rep.bounds = json!({"classes": classes(false).iter().map(|c| c.0).collect::<Vec<_>>(), "by_function_array_len": maxlen, "second_representatives": tier == Tier::Thorough});
     rep.stats = st;
     rep.finish()
